@@ -10,6 +10,27 @@ TB = ('Trusted: Lean 4.33 kernel + Mathlib v4.33 as compiled in the image; axiom
       'generated cases); reals vs IEEE doubles (rounding not modelled). ')
 
 CHECKS = {
+ 'C02': dict(
+   text='Theorems over the reals, for every amplitude, uncertainty >= 0 and mispick probability in [0,1]: the documented '
+        'expression, range [0,1] (strictly positive), complement p(A)+p(-A)=1, monotone/strictly monotone/antitone in A by the '
+        'side of w relative to 1/2, sigma=0 replaced by 1e-24 with no zero divisor, the hard 0/1 limit as sigma -> 0+ (Tendsto, '
+        'via erf -> 1 proved from the Gaussian integral), the step mixture for polarity probabilities by sign of A, its range, '
+        'log-sum over any number of stations = log of product, -inf iff some station probability is 0. Tie: polarity_ln_pdf / '
+        'polarity_probability_ln_pdf vs the executable model (scalar tail grid and station x location x tensor arrays); oracle = '
+        'the stated laws evaluated on the real code.',
+   note=TB + 'erf over R is defined as 2/sqrt(pi) * integral; the Float erf of the driver is a series/continued-fraction port checked '
+        'against scipy.special.erf on a grid each run. NaN-freedom at IEEE overflow scale is tested only.',
+   technique='Lean 4 proof (real analysis of erf, list induction) + differential correspondence with the Float instance',
+   design='5/C02'),
+ 'C10': dict(
+   text='Theorems over the reals for vectors of any length with any -inf pattern: log evidence denotes the mean likelihood over '
+        'all N tried samples, -inf entries count only through N, shift and permutation laws; model probabilities are the softmax '
+        '(positive, sum to one, ratio = exp of evidence difference, shift-invariant, any number of models); dkl_estimate = ln N - '
+        'H(w), <= ln N, >= 0 when #non-zero <= N (Gibbs); dkl(p,p)=0 and dkl >= 0. Tie: ln_bayesian_evidence, '
+        'model_probabilities, dkl_estimate, dkl and Sample.output() vs the executable model; oracle = defining identities on the real code.',
+   note=TB + 'prior() is the shipped constant 1; dkl is defined only where q is finite wherever p is.',
+   technique='Lean 4 proof over LogP R (list induction, Gibbs inequality) + differential correspondence',
+   design='5/C10'),
  'C04': dict(
    text='Theorems over the reals for slices of any length and any -inf pattern: log-sum-exp exactness with dV, -inf iff all '
         'entries -inf, commutation with adding a constant, every exp argument <= 0 with one equal to 0 (so log argument in '
